@@ -19,7 +19,14 @@ def main():
         ap.error('property id or --replay required')
     seed = int(os.environ.get('VERIF_SEED', '0') or 0)
     mod = 'ttmc.checks.' + a.prop.lower()
-    sys.exit(core.run_check(mod, a.tier, seed, a.limit))
+    try:
+        rc = core.run_check(mod, a.tier, seed, a.limit)
+    except Exception:
+        import traceback
+        print('HARNESS-ERROR: the check could not run to completion')
+        traceback.print_exc()
+        rc = 2
+    sys.exit(rc)
 
 
 if __name__ == '__main__':
